@@ -29,8 +29,9 @@ def _stream(n):
 
 
 def _rcase(cap, stream_len, chunks, ops):
+    # nn: True / False (uint8_t destination / null pointer) or one of 'p', 'q', 'r' (uint16_t, uint32_t, double)
     return 'R %d %s %s %s' % (cap, _stream(stream_len), ','.join(map(str, chunks)) or '-',
-                              ','.join(('n' if nn else 'z') + str(l) for nn, l in ops) or '-')
+                              ','.join((nn if isinstance(nn, str) else 'n' if nn else 'z') + str(l) for nn, l in ops) or '-')
 
 
 def _wcase(cap, ops, ctr=[0]):
@@ -66,6 +67,17 @@ def gen_cases(tier, rng):
                 # short stream: the source dries up
                 if total > 0 and nops <= 2:
                     cases.append(_rcase(cap, total - 1, [1] * (total + 2), ops))
+            # destinations of wider element types (the length stays a number of bytes): served from the buffer and
+            # after a refill
+            if nops <= 2:
+                for ptr in 'pqr':
+                    for ls in itertools.product(lens, repeat=nops):
+                        for first_plain in (False, True):
+                            ops = [((True if (first_plain and i == 0) else ptr), l) for i, l in enumerate(ls)]
+                            total = sum(l for l in ls if l <= cap)
+                            for ch in chunkings[:2]:
+                                chunks = (ch * (total + cap + 2))[:total + cap + 2]
+                                cases.append(_rcase(cap, total + cap, chunks, ops))
             # null pointer variants
             for ls in itertools.product(lens, repeat=min(nops, 2)):
                 for nullpos in range(len(ls)):
@@ -171,7 +183,7 @@ def spec_check(case, ir, mr):
         got = b''
         req_total = 0
         for o, r in zip(ops, prop):
-            nn = o[0] == 'n'; l = int(o[1:])
+            nn = o[0] != 'z'; l = int(o[1:])
             if r.startswith('G:'):
                 b = _unhex(r[2:])
                 if len(b) != l:
